@@ -70,6 +70,8 @@ type recKind struct {
 	// set stores the records, get returns them (decoded from the pack's blob)
 	set func(p interface{}, recs []interface{})
 	get func(p interface{}) []interface{}
+	// set2: the pack's other way of storing records (SetRecordsList / SetRecordsArray), nil = none
+	set2 func(p interface{}, recs []interface{})
 	// versions of the record encoding selectable on the pack (nil = none)
 	versions []byte
 }
@@ -89,10 +91,24 @@ func recKinds() []recKind {
 	return []recKind{
 		{name: "StatSqlPack", newPack: func() interface{} { return pack.NewStatSqlPack() }, newRec: func() interface{} { return pack.NewSqlRec() },
 			set: func(p interface{}, r []interface{}) { p.(*pack.StatSqlPack).SetRecords(len(r), &sliceEnum{items: r}) },
-			get: func(p interface{}) []interface{} { return listToSlice(p.(*pack.StatSqlPack).GetRecords()) }},
+			get: func(p interface{}) []interface{} { return listToSlice(p.(*pack.StatSqlPack).GetRecords()) },
+			set2: func(p interface{}, r []interface{}) {
+				l := list.New()
+				for _, x := range r {
+					l.PushBack(x)
+				}
+				p.(*pack.StatSqlPack).SetRecordsList(l)
+			}},
 		{name: "StatHttpcPack", newPack: func() interface{} { return pack.NewStatHttpcPack() }, newRec: func() interface{} { return pack.NewHttpcRec() },
 			set: func(p interface{}, r []interface{}) { p.(*pack.StatHttpcPack).SetRecords(len(r), &sliceEnum{items: r}) },
-			get: func(p interface{}) []interface{} { return listToSlice(p.(*pack.StatHttpcPack).GetRecords()) }},
+			get: func(p interface{}) []interface{} { return listToSlice(p.(*pack.StatHttpcPack).GetRecords()) },
+			set2: func(p interface{}, r []interface{}) {
+				l := list.New()
+				for _, x := range r {
+					l.PushBack(x)
+				}
+				p.(*pack.StatHttpcPack).SetRecordsList(l)
+			}},
 		{name: "StatErrorPack", newPack: func() interface{} { return pack.NewStatErrorPack() }, newRec: func() interface{} { return pack.NewErrorRec() },
 			set: func(p interface{}, r []interface{}) { p.(*pack.StatErrorPack).SetRecords(len(r), &sliceEnum{items: r}) },
 			get: func(p interface{}) []interface{} {
@@ -101,6 +117,13 @@ func recKinds() []recKind {
 					out = append(out, x)
 				}
 				return out
+			},
+			set2: func(p interface{}, r []interface{}) {
+				var arr []*pack.ErrorRec
+				for _, x := range r {
+					arr = append(arr, x.(*pack.ErrorRec))
+				}
+				p.(*pack.StatErrorPack).SetRecordsArray(arr)
 			}},
 		{name: "StatServicePack", newPack: func() interface{} { return pack.NewStatServicePack() }, newRec: func() interface{} { return pack.NewServiceRec() },
 			set: func(p interface{}, r []interface{}) {
@@ -119,17 +142,46 @@ func recKinds() []recKind {
 				}
 				return out
 			}},
+		{name: "SMDownCheckPack", newPack: func() interface{} { return pack.NewSMDownCheckPack() }, newRec: func() interface{} { return &pack.DownCheckRec{} },
+			set: func(p interface{}, r []interface{}) {
+				var arr []*pack.DownCheckRec
+				for _, x := range r {
+					arr = append(arr, x.(*pack.DownCheckRec))
+				}
+				p.(*pack.SMDownCheckPack).SetRecords(arr)
+			},
+			get: func(p interface{}) []interface{} {
+				var out []interface{}
+				for _, x := range p.(*pack.SMDownCheckPack).GetRecords() {
+					out = append(out, x)
+				}
+				return out
+			}},
 		{name: "StatTransactionPack", newPack: func() interface{} { return pack.NewStatTransactionPack() }, newRec: func() interface{} { return pack.NewTransactionRec() },
 			set: func(p interface{}, r []interface{}) {
 				p.(*pack.StatTransactionPack).SetRecords(len(r), &sliceEnum{items: r})
 			},
-			get:      func(p interface{}) []interface{} { return listToSlice(p.(*pack.StatTransactionPack).GetRecords()) },
+			get: func(p interface{}) []interface{} { return listToSlice(p.(*pack.StatTransactionPack).GetRecords()) },
+			set2: func(p interface{}, r []interface{}) {
+				l := list.New()
+				for _, x := range r {
+					l.PushBack(x)
+				}
+				p.(*pack.StatTransactionPack).SetRecordsList(l)
+			},
 			versions: []byte{2, 3, 4, 5}},
 		{name: "StatTransactionPack1", newPack: func() interface{} { return pack.NewStatTransactionPack1() }, newRec: func() interface{} { return pack.NewTransactionRec() },
 			set: func(p interface{}, r []interface{}) {
 				p.(*pack.StatTransactionPack1).SetRecords(len(r), &sliceEnum{items: r})
 			},
-			get:      func(p interface{}) []interface{} { return listToSlice(p.(*pack.StatTransactionPack1).GetRecords()) },
+			get: func(p interface{}) []interface{} { return listToSlice(p.(*pack.StatTransactionPack1).GetRecords()) },
+			set2: func(p interface{}, r []interface{}) {
+				l := list.New()
+				for _, x := range r {
+					l.PushBack(x)
+				}
+				p.(*pack.StatTransactionPack1).SetRecordsList(l)
+			},
 			versions: []byte{2, 3, 4, 5}},
 	}
 }
@@ -176,53 +228,59 @@ func recordLists(c *evid.Ctx, evals, nontriv *int64) {
 				a, b := variants[(i+1)%len(variants)], variants[(i+7)%len(variants)]
 				lists = append(lists, []interface{}{v, a}, []interface{}{a, v, b}, []interface{}{b, a, v})
 			}
+			setters := []func(p interface{}, recs []interface{}){k.set}
+			if k.set2 != nil {
+				setters = append(setters, k.set2)
+			}
 			for _, recs := range lists {
-				atomic.AddInt64(evals, 1)
-				if len(recs) > 0 {
-					atomic.AddInt64(nontriv, 1)
-				}
-				func() {
-					desc := fmt.Sprintf("%s with %d records (record version %d)", k.name, len(recs), ver)
-					defer func() {
-						if r := recover(); r != nil {
-							c.Violation(fmt.Sprintf("C03:%s:records:panic", k.name), fmt.Sprintf("%s: panic: %v", desc, r), nil)
+				for si, setter := range setters {
+					atomic.AddInt64(evals, 1)
+					if len(recs) > 0 {
+						atomic.AddInt64(nontriv, 1)
+					}
+					func() {
+						desc := fmt.Sprintf("%s with %d records (record version %d, stored with %s)", k.name, len(recs), ver, []string{"SetRecords", "SetRecordsList/SetRecordsArray"}[si])
+						defer func() {
+							if r := recover(); r != nil {
+								c.Violation(fmt.Sprintf("C03:%s:records:panic", k.name), fmt.Sprintf("%s: panic: %v", desc, r), nil)
+							}
+						}()
+						p := k.newPack()
+						pv := reflect.ValueOf(p).Elem()
+						if f := pv.FieldByName("Version"); f.IsValid() && k.versions != nil {
+							f.SetUint(uint64(ver))
 						}
-					}()
-					p := k.newPack()
-					pv := reflect.ValueOf(p).Elem()
-					if f := pv.FieldByName("Version"); f.IsValid() && k.versions != nil {
-						f.SetUint(uint64(ver))
-					}
-					pv.FieldByName("Pcode").SetInt(4321)
-					pv.FieldByName("Oid").SetInt(-77)
-					k.set(p, recs)
-					t := regType(k.name)
-					b, err := packs.Encode(p)
-					if err != nil {
-						c.Violation(fmt.Sprintf("C03:%s:records:write-panic", k.name), fmt.Sprintf("%s: %v", desc, err), nil)
-						return
-					}
-					dec, left, derr := packs.Decode(t, b)
-					if derr != nil || left != 0 {
-						c.Violation(fmt.Sprintf("C03:%s:records:decode", k.name), fmt.Sprintf("%s: decode error %v, %d bytes left", desc, derr, left), nil)
-						return
-					}
-					if rc := reflect.ValueOf(dec).Elem().FieldByName("RecordCount").Int(); int(rc) != len(recs) {
-						c.Violation(fmt.Sprintf("C03:%s:records:count", k.name), fmt.Sprintf("%s: decoded RecordCount = %d", desc, rc), nil)
-					}
-					got := k.get(dec)
-					if len(got) != len(recs) {
-						c.Violation(fmt.Sprintf("C03:%s:records:count", k.name), fmt.Sprintf("%s: GetRecords returned %d records", desc, len(got)), nil)
-						return
-					}
-					for i := range recs {
-						want := maskForVersion(recs[i], ver)
-						if d := packs.Diff(want, got[i]); d != "" {
-							c.Violation(fmt.Sprintf("C03:%s:records:field:%s", k.name, d), fmt.Sprintf("%s: record %d comes back with a different %s", desc, i, d), map[string]interface{}{"pack": k.name, "record_index": i, "field": d, "version": ver})
+						pv.FieldByName("Pcode").SetInt(4321)
+						pv.FieldByName("Oid").SetInt(-77)
+						setter(p, recs)
+						t := regType(k.name)
+						b, err := packs.Encode(p)
+						if err != nil {
+							c.Violation(fmt.Sprintf("C03:%s:records:write-panic", k.name), fmt.Sprintf("%s: %v", desc, err), nil)
 							return
 						}
-					}
-				}()
+						dec, left, derr := packs.Decode(t, b)
+						if derr != nil || left != 0 {
+							c.Violation(fmt.Sprintf("C03:%s:records:decode", k.name), fmt.Sprintf("%s: decode error %v, %d bytes left", desc, derr, left), nil)
+							return
+						}
+						if rc := reflect.ValueOf(dec).Elem().FieldByName("RecordCount").Int(); int(rc) != len(recs) {
+							c.Violation(fmt.Sprintf("C03:%s:records:count", k.name), fmt.Sprintf("%s: decoded RecordCount = %d", desc, rc), nil)
+						}
+						got := k.get(dec)
+						if len(got) != len(recs) {
+							c.Violation(fmt.Sprintf("C03:%s:records:count", k.name), fmt.Sprintf("%s: GetRecords returned %d records", desc, len(got)), nil)
+							return
+						}
+						for i := range recs {
+							want := maskForVersion(recs[i], ver)
+							if d := packs.Diff(want, got[i]); d != "" {
+								c.Violation(fmt.Sprintf("C03:%s:records:field:%s", k.name, d), fmt.Sprintf("%s: record %d comes back with a different %s", desc, i, d), map[string]interface{}{"pack": k.name, "record_index": i, "field": d, "version": ver})
+								return
+							}
+						}
+					}()
+				}
 			}
 		}
 	}
@@ -465,4 +523,5 @@ func containerChecks(c *evid.Ctx, evals, nontriv *int64) {
 	}
 	zipChecks(c, evals, nontriv, ml)
 	twoContainers(c, evals, nontriv, ml)
+	smBase(c, evals, nontriv)
 }
